@@ -1,6 +1,6 @@
 (* C08 — specification of sound coin selection (what the property says), its executable form (the judge that the
    check evaluates on the implementation's results) and the decidable known-finding classes.  No proofs here. *)
-From CSL Require Import Base.Prelude Num.Value CoinSel.CoinSel.
+From CSL Require Import Base.Prelude Num.Value Num.ValueNorm CoinSel.CoinSel.
 Local Open Scope N_scope.
 
 (* ------------------------------------------------------------------------------------------- *)
@@ -65,7 +65,7 @@ Section Fees.
     | [] => Ok 0
     | u :: r =>
         let* f := fee_for_input m u in
-        let* fs := marginal_fees (imap_insert u m) r in
+        let* fs := marginal_fees (imap_insert (norm_utxo u) m) r in
         Ok (f + fs)
     end.
 
@@ -76,7 +76,7 @@ Section Fees.
 
   (* fee_for_input is, by its definition (tx_builder.rs:1073-1094), the difference of two minimum fees *)
   Definition fee_additive : Prop :=
-    forall m u f, fee_for_input m u = Ok f -> forall f0, min_fee m = Ok f0 -> min_fee (imap_insert u m) = Ok (f0 + f).
+    forall m u f, fee_for_input m u = Ok f -> forall f0, min_fee m = Ok f0 -> min_fee (imap_insert (norm_utxo u) m) = Ok (f0 + f).
 End Fees.
 
 Definition added_utxos (offered : list utxo) (trace : list nat) : list utxo :=
@@ -87,10 +87,11 @@ Definition added_utxos (offered : list utxo) (trace : list nat) : list utxo :=
    [asset_class_excluded] is false for the code as it is; the legacy variants exclude the class C08-burn-not-covered *)
 Definition sound_result (min_fee : imap -> result N) (fee_for_input : imap -> utxo -> result N)
            (asset_class_excluded : bool) (offered eff : list utxo) (sc : scenario) (st' : sel_state) : Prop :=
-  let before := imap_of_list (sc_pre sc) in
+  let before := initial_map sc in
   let added := added_utxos eff (st_trace st') in
   distinct_members offered added /\
-  preserved before (st_inputs st') added /\
+  (* the map holds the old inputs and the added UTxOs (their amounts as push_input stores them: norm_utxo) *)
+  preserved before (st_inputs st') (map norm_utxo added) /\
   exists fee, required_fee min_fee fee_for_input before added = Ok fee /\
               covers_coin sc (st_inputs st') fee /\
               (asset_class_excluded = false -> covers_assets sc (st_inputs st')).
@@ -100,7 +101,7 @@ Definition sound_result (min_fee : imap -> result N) (fee_for_input : imap -> ut
 Definition derived_ffi (min_fee : imap -> result N) (m : imap) (u : utxo) : result N :=
   let* a := min_fee m in
   if u_ok u then
-    let* b := min_fee (imap_insert u m) in
+    let* b := min_fee (imap_insert (norm_utxo u) m) in
     if a <=? b then Ok (b - a) else Err
   else Err.
 
@@ -244,6 +245,11 @@ Definition judge_insufficient (strat : strategy) (offered : list utxo) (sc : sce
 
 (* ------------------------------------------------------------------------------------------- *)
 (* Entry points of the extracted driver *)
+
+(* add_output (since /repo bb8d7fa) refuses an amount with a zero quantity or a policy without assets: a scenario
+   with such an output cannot be put into a builder *)
+Definition scenario_buildable (sc : scenario) : bool :=
+  negb (existsb (fun o => value_has_empty_entries (o_val o)) (sc_outputs sc)).
 
 Definition strategy_of_N (k : N) : strategy :=
   match k with 0 => LargestFirst | 1 => RandomImprove | 2 => LargestFirstMultiAsset | _ => RandomImproveMultiAsset end.
